@@ -124,4 +124,12 @@ CHECKS = {
         tests=[
             dict(name="TestC13History", quick=dict(checks=200, shards=6, timeout=900), thorough=dict(checks=800, shards=12, timeout=3400)),
         ]),
+    "C07": dict(
+        pkg="c07", level="exploration", bins=["dcat", "dgrep"], helpers=["vserver"],
+        technique="property-based testing (rapid): generated multi-server / multi-file layouts of tagged lines read by the real dcat/dgrep binaries from several real servers at once; validity oracle over every output line (whole line, right label, right number, per-source order, completeness)",
+        level_text="Up to six real server processes with distinct host labels each serve their own generated files (1 B to 30 KiB lines, up to 2000 lines) to one client; every line the client prints must be a well-formed log record or a REMOTE record whose content is exactly line n of the source its host and file labels name, with n running without gaps per source.",
+        level_note="Relative speeds are varied through file sizes and line lengths only (schedules are sampled, not enumerated). Byte 0xAC is excluded from line content (open finding C01/delim-0xac). One glob per session, so the multi-command early shutdown (open finding of C02) is out of the picture.",
+        tests=[
+            dict(name="TestC07Interleave", quick=dict(checks=80, shards=6, timeout=900), thorough=dict(checks=400, shards=12, timeout=3400)),
+        ]),
 }
